@@ -280,10 +280,12 @@ fn read_upper_command(cur: &mut SourceCursor, song: &mut Song) -> Token {
                     TokenType::UseKeyShift => return read_use_key_shift(cur, song),
                     TokenType::Return => {
                         cur.skip_space();
-                        let values = if cur.eq_char('(') {
-                            read_args_tokens(cur, song)
+                        // RETURN without a value (no parentheses, or empty ones) keeps Result as it is
+                        let values: Vec<Token> = if cur.eq_char('(') {
+                            read_args_tokens(cur, song).into_iter()
+                                .filter(|t| t.children.as_ref().map(|c| !c.is_empty()).unwrap_or(false)).collect()
                         } else {
-                            vec![Token::new(TokenType::Value, LEX_VALUE, vec![SValue::from_i(0)])]
+                            vec![]
                         };
                         return Token::new_tokens(TokenType::Return, 0, values);
                     },
